@@ -107,12 +107,15 @@ class HeaderParse(Task):
     inline = INLINE_PCK
 
     def __init__(self, prop, nd, nf, nboxes, limit=None, maxmins=False, header_only=False, repeated=None, ref_extra=0, files=1,
-                 validate=False):
+                 validate=False, cellh_nf=None):
+        self.cellh_nf = cellh_nf        # component count stated by the level headers when it is NOT the Header's field count
         self.prop = prop
         self.cfg = dict(nd=nd, nf=nf, nboxes=nboxes, limit=limit, maxmins=maxmins, header_only=header_only, repeated=repeated,
                         ref_extra=ref_extra, files=files, validate=validate)
         self.name = (f"PlotfileCooker.__init__[nd={nd},nf={nf},boxes={nboxes},limit={limit},maxmins={maxmins},"
                      f"header_only={header_only},repeated={repeated},ref+{ref_extra},files={files}" + (",validate_mode" if validate else "") + "]")
+        if cellh_nf is not None:
+            self.name = self.name[:-1] + f",level headers state {cellh_nf} components]"
 
     def functions(self):
         return [self.qual] + list(INLINE_PCK)
@@ -126,6 +129,8 @@ class HeaderParse(Task):
             for d in range(pf.nd):
                 ctx.assume(z3.And(pf.n[lv][d] >= 1, pf.dx[lv][d] > 0,
                                   pf.geo_hi[d] == pf.geo_lo[d] + to_real(pf.n[lv][d]) * pf.dx[lv][d]))
+        if self.cellh_nf is not None:
+            pf.cellh_nf = self.cellh_nf
         fs = TextFS()
         ctx.ghost["fs"] = fs
         root = plt_path()
@@ -142,6 +147,11 @@ class HeaderParse(Task):
         pf = inp["pf"]
         if c["limit"] is not None and c["limit"] > pf.L:
             ctx.oblige("post.limit-above-finest-refused", out.kind == "exc" and out.exc.etype == "ValueError", "P", note=str(out.exc))
+            return
+        if self.cellh_nf is not None:
+            # level headers whose component count contradicts the Header: the reader (also as taste opens it) must refuse -
+            # every box would otherwise be served with a shape other than the one its level header declares
+            ctx.oblige("post.level-header-component-count-contradicting-the-Header-is-refused", out.kind == "exc", "P")
             return
         ctx.oblige("raises-nothing", out.kind == "ret", "P", note=str(out.exc))
         if out.kind != "ret":
@@ -171,6 +181,9 @@ def header_tasks(prop, tier):
     if prop in ("C03", "C20"):
         # the reader as taste builds it (validate_mode): every well-formed header is accepted and exposed unchanged
         for c in [dict(nd=3, nf=2, nboxes=[2, 1], files=2, validate=True), dict(nd=2, nf=3, nboxes=[1, 2], limit=0, ref_extra=1, maxmins=True, validate=True)]:
+            out.append(HeaderParse(prop, **c))
+    if prop in ("C04", "C20"):
+        for c in [dict(nd=3, nf=2, nboxes=[1, 1], validate=True, cellh_nf=3), dict(nd=3, nf=2, nboxes=[2], validate=False, cellh_nf=1)]:
             out.append(HeaderParse(prop, **c))
     if prop == "C14":
         from props.roundtrip import roundtrip_tasks
